@@ -714,7 +714,7 @@ func substVal(v Val, m map[*Term]*Term) Val {
 		if r.Len == x.Len && r.Arr == x.Arr && r.Lens == x.Lens && r.Lit == x.Lit {
 			return x
 		}
-		if r.Len.IsInt() && r.Len.Int64() <= 256 && x.Elem.K != "slice" {
+		if r.Len.IsInt() && r.Len.Int64() <= 64 && x.Elem.K != "slice" {
 			return r.explode()
 		}
 		return &r
